@@ -136,6 +136,35 @@ func probeCall(e *Env, call *ssa.Call) (subject ssa.Value, asserted types.Type, 
 	return call.Call.Args[0], asserted, true
 }
 
+// failNowBlock: block b reports the missing interface: it holds a testify FailNow on t (directly or through a
+// one-call helper of the module), ends in a return and is entered from the probe's answer alone.
+func failNowBlock(e *Env, b *ssa.BasicBlock) bool {
+	if _, isRet := b.Instrs[len(b.Instrs)-1].(*ssa.Return); !isRet || len(b.Preds) != 1 {
+		return false
+	}
+	piff, isIf := b.Preds[0].Instrs[len(b.Preds[0].Instrs)-1].(*ssa.If)
+	if !isIf || !probeAnswer(e, piff.Cond) {
+		return false
+	}
+	for _, in := range b.Instrs {
+		call, ok := in.(*ssa.Call)
+		if !ok {
+			continue
+		}
+		if strings.HasPrefix(calleeName(&call.Call), "github.com/stretchr/testify/assert.FailNow") {
+			return true
+		}
+		if g := e.C.StaticCallee(&call.Call); g != nil && flow.InRepo(g) && len(g.Blocks) == 1 {
+			for _, gin := range g.Blocks[0].Instrs {
+				if gc, ok := gin.(*ssa.Call); ok && strings.HasPrefix(calleeName(&gc.Call), "github.com/stretchr/testify/assert.FailNow") {
+					return true
+				}
+			}
+		}
+	}
+	return false
+}
+
 // probeAnswer: cond is the answer of an interface probe and nothing else: the ok of a comma-ok assertion, a probing
 // helper's result, or castToFunc's result compared with nil — possibly negated.
 func probeAnswer(e *Env, cond ssa.Value) bool {
@@ -670,6 +699,115 @@ func ruleC20Helper(e *Env, h helperSpec) {
 			}
 		default:
 			e.S.Ok("C20.iface", site, "missing interface", "applicable cases: value tested for the interface declaring "+h.name+"; on failure FailNow on t and return", pos)
+		}
+	}
+	// ---- C20.verdict "nothing else": the only-if half. A call that can fail t is the missing-interface report, the
+	// report of a failed hook, or part of the verdict on the protected call's results — a failure recorded anywhere
+	// else (an empty table, a case whose Custom is set without a hook) fails t for a reason the property does not list
+	{
+		var strays []string
+		n := 0
+		for _, b := range fn.Blocks {
+			for _, in := range b.Instrs {
+				var cc *ssa.CallCommon
+				switch x := in.(type) {
+				case *ssa.Call:
+					cc = &x.Call
+				case *ssa.Defer:
+					cc = &x.Call
+				case *ssa.Go:
+					cc = &x.Call
+				}
+				if cc == nil {
+					continue
+				}
+				onT := false
+				for _, a := range cc.Args {
+					if isT(a) {
+						onT = true
+					}
+				}
+				if cc.IsInvoke() && isT(cc.Value) {
+					switch cc.Method.Name() {
+					case "Helper", "Name", "Log", "Logf", "Cleanup", "TempDir", "Setenv":
+						continue
+					}
+					onT = true
+				}
+				if !onT {
+					continue
+				}
+				n++
+				call, isCall := in.(*ssa.Call)
+				okPlace := false
+				switch {
+				case isCall && failNowBlock(e, b): // the missing-interface report
+					okPlace = true
+				case safe.Block() != b && safe.Block().Dominates(b): // the verdict on what the protected call produced
+					okPlace = true
+				case safe.Block() == b:
+					for _, x := range b.Instrs {
+						if x == ssa.Instruction(safe) {
+							okPlace = true
+							break
+						}
+						if x == in {
+							break
+						}
+					}
+				}
+				// the report of a failed hook: assert.NoError(t, <the hook runner's error>)
+				if !okPlace && isCall && strings.HasPrefix(calleeName(cc), "github.com/stretchr/testify/assert.NoError") && len(cc.Args) >= 2 {
+					if hc, ok := flow.Strip(cc.Args[1]).(*ssa.Call); ok {
+						if g := e.C.StaticCallee(&hc.Call); g != nil && flow.InRepo(g) && hasRecoverDefer(flow.Origin(g)) {
+							okPlace = true
+						}
+					}
+				}
+				_ = call
+				if !okPlace {
+					strays = append(strays, e.posOf(in))
+				}
+			}
+		}
+		switch {
+		case n == 0:
+			e.S.Unk("C20.verdict", site, "nothing else", "no call on the helper's t found", pos)
+		case len(strays) > 0:
+			e.S.Bad("C20.verdict", site, "nothing else", "t can be failed at "+strings.Join(strays, ", ")+", which is neither the missing-interface report, nor the report of a failed hook, nor part of the verdict on the protected call's results: a table is reported for a reason the property does not list", pos, "an empty case table")
+		default:
+			e.S.Ok("C20.verdict", site, "nothing else", fmt.Sprintf("%d call(s) on t: the missing-interface report, the hook reports and the verdict behind the protected call — nothing else can fail t", n), pos)
+		}
+	}
+	// ---- C20.verdict "input": what is judged is the case run on its own input — the unmarshaler is handed the case's
+	// Data itself (converted to bytes at most), not something computed from it
+	if !h.marshal {
+		nData, bad := 0, false
+		for _, a := range safe.Call.Args {
+			isText := false
+			switch u := a.Type().Underlying().(type) {
+			case *types.Basic:
+				isText = u.Info()&types.IsString != 0
+			case *types.Slice:
+				if bt, ok := u.Elem().Underlying().(*types.Basic); ok && bt.Kind() == types.Uint8 {
+					isText = true
+				}
+			}
+			if !isText {
+				continue
+			}
+			nData++
+			if !fieldLoad(a, "Data") {
+				bad = true
+			}
+		}
+		switch {
+		case nData == 0:
+			e.S.Unk("C20.verdict", site, "input", "no text argument of the protected call found", e.posOf(safe))
+		case bad:
+			e.S.Bad("C20.verdict", site, "input", "the protected call is handed something other than the case's Data (a trimmed, rebuilt or otherwise computed text): the case is judged on another input than its own", e.posOf(safe), `{Data: " 1", Error: AnyError} with an unmarshaler that refuses a leading space`)
+		default:
+			e.S.Ok("C20.verdict", site, "input", "the protected call is handed the case's Data itself", e.posOf(safe))
 		}
 	}
 	// ---- C20.dir
